@@ -17,7 +17,11 @@ CFG = dict(
          "incl. values; gap-free ids; PrevAlh chain; BlRoot = Merkle root of the recovered Alhs; DualProof(acked, "
          "recovered) and (acked, fresh) verify; Get after WaitForIndexingUpto = latest committed value; a fresh commit "
          "succeeds); a sample of images is continued into a second traced incarnation (recovery + fresh commits) and "
-         "crashed again. TIE cases: CRun = the trace projected to a schedule of protocol-model operations with the "
+         "crashed again. Plus 1+n/5 ROTATION workloads (FileSize 256..1024: tx records straddle chunk boundaries, every log "
+         "rotates several times; long schedules; a crash point after EVERY acknowledgement) whose store lives on a disk "
+         "file system and whose durability is OBSERVED per physical chunk file after every call (cachestat(2): a written "
+         "file without dirty/writeback pages has been fsynced; otherwise its writes stay pending whatever the API was "
+         "told). TIE cases: CRun = the trace projected to a schedule of protocol-model operations with the "
          "observed offsets/sizes/commit counts/acks (the model must accept the schedule and reproduce the observables, "
          "incl. that at each ack the commit entry, tx record and value extent are durable); CRec = schedule prefix + "
          "per-class crash image, model `recover` vs real store.Open on (success, committed id, reloaded precommitted). "
@@ -27,7 +31,11 @@ CFG = dict(
         "file-system model: fsync makes all earlier writes of THAT file durable; un-fsynced writes survive as any per-file "
         "prefix plus a byte-prefix of the next write (torn), independently per file; no reordering beyond that; a created "
         "chunk file exists with its header (singleapp.Open fsyncs file and directory)",
-        "harness: what is durable is derived from the appendable API contract (Sync = fsync of the current chunk; rotation "
+        "harness, rotation workloads: durability of each physical chunk file is observed through cachestat(2) (kernel >= 6.5, "
+        "disk file system; falls back to the derived level and says so in the input distribution otherwise); a page "
+        "cleaned by background write-back within the sub-second run would be taken as fsynced; the protocol MODEL keeps "
+        "treating a log as one file: chunk-level durability is falsifier-side only",
+        "harness, other workloads: what is durable is derived from the appendable API contract (Sync = fsync of the current chunk; rotation "
         "fsyncs the chunk it leaves when Synced; a buffer-full auto-sync is treated as a plain write, which only ADDS crash "
         "images); physical writes are observed by reading the files back after every call under one global lock",
         "atomicity of each critical section of the Go code (commit mutex, commitStateRWMutex, per-vLog lock, AHT mutex) as "
